@@ -350,6 +350,9 @@ class Types:
             if not inner.startswith(('std::', 'Oomd::')) and '<' in inner:
                 inner = 'std::' + inner
             return self.ctype(inner)
+        m = re.match(r'^(?:Oomd::)?(?:PluginArgParser::)?Identity<(.*)>::type$', t)
+        if m:
+            return self.ctype(strip_cvref(m.group(1)))
         m = re.match(r'^(?:__gnu_cxx::__enable_if|std::enable_if)<(.*)>::_*type$', t)
         if m:
             a = split_targs(m.group(1))
@@ -757,7 +760,7 @@ class FnEmitter:
                 return 'NULLOPT'
             rid = r['id']
             if rid in self.lambda_vars:
-                return self.lambda_vars[rid].get('_cname', '0')
+                return self.lambda_value(self.lambda_vars[rid], self.lambda_vars[rid].get('_cname', '0'))
             nm = self.renames.get(rid, sanitize(name))
             if rid in self.ptr_params or rid in self.locals_ptr:
                 return '(*%s)' % nm
@@ -1282,7 +1285,16 @@ class FnEmitter:
     e_CXXTemporaryObjectExpr = e_CXXConstructExpr
 
     def e_LambdaExpr(self, n):
-        return self.u.lift_lambda(self, n)
+        return self.lambda_value(n, self.u.lift_lambda(self, n))
+
+    def lambda_value(self, lam, name):
+        """a closure used as a value (handed to a callee).  With config lambda_bind the captured variables
+        travel with it: lambda_bind__NAME(captures...) is defined by the unit's spec (ghost capture record)."""
+        caps = [x for x in lam.get('_call_extra', []) if x != 'self']
+        if self.cfg.get('lambda_bind') and caps:
+            fixed = [(x[1:] if x.startswith('&') and getattr(self, 'is_lambda', False) else x) for x in caps]
+            return 'lambda_bind__%s(%s)' % (name, ', '.join(fixed))
+        return name
 
     def e_UserDefinedLiteral(self, n):
         ct = self.ct(n)
@@ -2147,10 +2159,58 @@ class Unit:
         lam['_owner'] = em
         self.lift(em, lam)
 
+    def name_lambdas_by_use(self, em):
+        """config lambda_names=by_use: a lambda is named after what it is handed to (callee, variable, return),
+        so that reordering independent statements does not rename the functions under contract"""
+        if getattr(em, '_lam_named', False):
+            return
+        em._lam_named = True
+        seen = {}
+
+        def callee_name(call):
+            def find(x, depth=0):
+                if x.get('kind') in ('DeclRefExpr',):
+                    return x.get('referencedDecl', {}).get('name')
+                if x.get('kind') == 'MemberExpr':
+                    return x.get('name')
+                for c in kids(x)[:1]:
+                    r = find(c, depth + 1)
+                    if r:
+                        return r
+                return None
+            ks = kids(call)
+            return find(ks[0]) if ks else None
+
+        def walk(x, stack):
+            if x.get('kind') == 'LambdaExpr' and x is not em.fn:
+                use = None
+                for a in reversed(stack):
+                    k = a.get('kind')
+                    if k in ('CallExpr', 'CXXMemberCallExpr', 'CXXOperatorCallExpr'):
+                        use = callee_name(a)
+                    elif k == 'VarDecl':
+                        use = a.get('name')
+                    elif k == 'ReturnStmt':
+                        use = 'ret'
+                    if use:
+                        break
+                use = sanitize(use or 'anon')
+                seen[use] = seen.get(use, 0) + 1
+                x['_use_name'] = use if seen[use] == 1 else '%s_%d' % (use, seen[use])
+                return      # nested lambdas are named when their parent is lifted
+            for c in kids(x):
+                walk(c, stack + [x])
+        walk(em.fn, [])
+
     def lift_lambda(self, em, lam):
         if '_cname' not in lam:
             em.tmp_no += 1
-            lam['_cname'] = '%s__lambda_%d' % (em.cname, em.tmp_no)
+            if self.cfg.get('lambda_names') == 'by_use':
+                self.name_lambdas_by_use(em)
+            if lam.get('_use_name'):
+                lam['_cname'] = '%s__lambda_%s' % (em.cname, lam['_use_name'])
+            else:
+                lam['_cname'] = '%s__lambda_%d' % (em.cname, em.tmp_no)
             self.lift(em, lam)
         return lam['_cname']
 
@@ -2333,7 +2393,7 @@ class Unit:
 
     # -- output assembly
     def struct_fields(self, q):
-        rec = self.index.records.get(q) or self.index.records.get(q + '<spec>')
+        rec = self.index.records.get(q + '<spec>') or self.index.records.get(q)     # a class template: its instantiation
         if rec is None:
             raise Unsupported('no record definition for %s' % q)
         fields = []
